@@ -130,6 +130,34 @@ fn main() {
                 &args[9],
             );
         }
+        "selftest" => {
+            // selftest <prop|all> <n>
+            if !shim::present() {
+                eprintln!("HARNESS-ERROR: libsimio.so is not preloaded");
+                std::process::exit(2);
+            }
+            let which = args.get(2).cloned().unwrap_or("all".into());
+            let n: u64 = args.get(3).and_then(|s| s.parse().ok()).unwrap_or(400);
+            let all: Vec<&'static dyn Scenario> = scenarios().into_iter().filter(|s| which == "all" || s.property() == which).collect();
+            std::process::exit(core::selftest(&all, n));
+        }
+        "selftest-worker" => {
+            let all = scenarios();
+            let scn = all.iter().find(|s| s.property() == args[2] && s.name() == args[3]).expect("scenario");
+            core::selftest_worker(*scn, args[4].parse().unwrap(), args[5].parse().unwrap(), args[6].parse().unwrap(), args[7].parse().unwrap(), &args[8]);
+        }
+        "run-one" => {
+            // run-one <prop> <scenario> <idx> : print the outcome of one run (debugging aid)
+            let all = scenarios();
+            let scn = all.iter().find(|s| s.property() == args[2] && s.name() == args[3]).expect("scenario");
+            let env = core::Env::detect();
+            let base_seed: u64 = std::env::var("VERIF_SEED").ok().and_then(|s| s.parse().ok()).unwrap_or(1);
+            let idx: u64 = args[4].parse().unwrap();
+            let seed = core::run_seed(base_seed, *scn, idx);
+            let plan = scn.plan(seed, idx, Tier::Quick, &env);
+            let rr = core::run_plan(*scn, &plan, &env);
+            println!("{}", serde_json::to_string(&rr.outcome).unwrap());
+        }
         "replay" => {
             if !shim::present() {
                 eprintln!("HARNESS-ERROR: libsimio.so is not preloaded; run through /verif/check");
